@@ -345,8 +345,45 @@ def t_lists():
     return stats
 
 
+KEYWORDS = ["nil", "Nil", "null", "Null", "none", "None", "true", "True", "false", "False", "in", "or", "and", "not", "contains",
+            "undefined", "missing"]
+KEYWORD_SHAPES = [("$[%s]", "$[%s]"), ("$..[%s]", "$..[%s]"), ("%s", "$[%s]"), ("%s.x", "$[%s].x"), ("$[%s, 'a']", "$[%s, 'a']"),
+                  ("$['a', %s]", "$['a', %s]"), ("$[ %s ]", "$[%s]"), ("$.l[*][%s]", "$.l[*][%s]"), ("$[%s][%s]", "$[%s][%s]")]
+
+
+def t_keywords():
+    """unquoted names (in brackets, and first in a query with no root identifier) that begin with, end with or repeat a reserved word of
+    the extended syntax: a longer name is a name, and means what the quoted spelling means"""
+    stats = Stats()
+    n = 0
+    names = []
+    for k in KEYWORDS:
+        names += [k + "x", k + "_", k + "1", "x" + k, k + k, k + "\u00e9", k.upper() + "S"]
+    names += ["index", "order", "android", "notes", "Nile", "nilpotent", "Nilsson", "nullable", "nonesuch", "Trueman", "inner", "organ",
+              "andy", "nothing", "container", "undefinedness", "missingno"]
+    for nm in names:
+        doc = {nm: {"x": 1, nm: [1]}, "a": 2, "l": [{nm: 1}, {"a": 1}, [nm]]}
+        for alias, std in KEYWORD_SHAPES:
+            k = alias.count("%s")
+            text, twin = alias % ((nm,) * k), std % (("'%s'" % nm,) * k)
+            stats.ev()
+            a, b = lib_values(text, doc, None), lib_values(twin, doc, None)
+            case = {"text": text, "twin": twin, "doc": doc, "origin": "keywords"}
+            if b[0] != "ok" or not b[1]:
+                raise AssertionError("harness: standard twin %r gives %r" % (twin, b))
+            if a[0] != "ok":
+                stats.fail("keyword-name:rejected:%s" % alias, case, "unquoted name in %r -> %s ; quoted twin %r selects %d nodes" % (text, short(a, 160), twin, len(b[1])))
+            elif len(a[1]) != len(b[1]) or any(x[0] != y[0] or not lib.same_node(x[1], y[1]) for x, y in zip(a[1], b[1])):
+                stats.fail("keyword-name:different-result:%s" % alias, case, "%r gives %s, %r gives %s" % (text, short([x[0] for x in a[1]], 120), twin, short([x[0] for x in b[1]], 120)))
+            n += 1
+        stats.nt("keywords", nm)
+    stats.subspaces.append({"name": "%d unquoted names built around the 17 reserved words x %d unquoted positions, against the quoted spelling" % (len(names), len(KEYWORD_SHAPES)),
+                            "size": n, "exhaustive": True})
+    return stats
+
+
 def tasks(tier, seed):
-    ts = [{"name": "matrix", "fn": "t_matrix"}, {"name": "words", "fn": "t_words"}, {"name": "lists", "fn": "t_lists"}]
+    ts = [{"name": "matrix", "fn": "t_matrix"}, {"name": "words", "fn": "t_words"}, {"name": "lists", "fn": "t_lists"}, {"name": "keywords", "fn": "t_keywords"}]
     n = 1800 if tier == "quick" else 30000
     for k in range(16):
         ts.append({"name": "random-%d" % k, "fn": "t_random", "kw": {"seed": mix(seed, ID, k), "n": n}})
@@ -361,6 +398,11 @@ def replay(case):
             for f in fs:
                 if f["case"].get("words") == case.get("words"):
                     stats.fail(sig, f["case"], f["detail"])
+        return stats
+    if case.get("origin") == "keywords":
+        a, b = lib_values(case["text"], case["doc"], None), lib_values(case["twin"], case["doc"], None)
+        if a != b and not (a[0] == b[0] == "ok" and len(a[1]) == len(b[1]) and all(x[0] == y[0] and lib.same_node(x[1], y[1]) for x, y in zip(a[1], b[1]))):
+            stats.fail("keyword-name", case, "%r -> %s ; %r -> %s" % (case["text"], short(a, 120), case["twin"], short(b, 120)))
         return stats
     if case.get("origin") == "twin":
         twins(stats, case["ast"], case["doc"], case["text"], case.get("extra"))
